@@ -815,6 +815,11 @@ class Engine:
                         raise e
                 del self._step_paths[path]
 
+        # Forget the progress of the processes that lived there now: a
+        # process created at the same path later in this batch starts
+        # afresh instead of inheriting their time and pending update.
+        self._remove_deleted_processes()
+
     def run_steps(self) -> None:
         """Run all the steps in the simulation."""
         layers = self._step_graph.get_execution_layers()
